@@ -551,7 +551,7 @@ fn run_all<E: El>(cli: &ev::Cli) -> i32 {
     let mut bm = None;
     let mut bounds = Vec::new();
     for p in plans(&cli.prop, &cli.tier) {
-        bounds.push(json!({"sweep": p.name, "depth": p.depth, "configurations": p.cfgs.len()}));
+        bounds.push(json!({"sweep": p.name, "depth": explore::depth_bound(p.depth), "configurations": p.cfgs.len()}));
         let sw = Sweep { name: p.name.to_string(), h: &h, cfgs: p.cfgs, depth: p.depth };
         explore::explore(&sw, &opts, &mut acc, &mut bm);
         if !acc.violations.is_empty() || acc.cap_hit {
